@@ -128,23 +128,21 @@ def resume_oracle(o):
         last_script = max([i for i, op in enumerate(o.ops) if op.startswith("script readv")] + [-1])
         seen, done_at = 0, (None if n_script else -1)
         wrote, got = 0, 0
-        last_pw = -1
         for i in range(o.n):
+            pending_before = wrote - got
             seen += len(o.env(i, "readv"))
-            if done_at is None and seen >= n_script and i >= last_script:
-                done_at = i
             for pw in o.env(i, "peerWrote"):
                 wrote += int(pw[2])
-                last_pw = i
-            for r in o.env(i, "readv"):
-                if r[2].isdigit():
-                    got += int(r[2])
-        if done_at is not None:
-            start = max(done_at, last_pw)
-            its = [i for i in range(start + 1, o.n) if o.ops[i] == "iter" and not any(l == "# poll EINTR" for l in o.blocks[i])]
-            if len(its) >= 2 and got != wrote:
-                fails.append(("no-resume-read", "the injected read faults were used up at step %d; %d fault-free iterations later "
-                              "only %d of the %d bytes the peer wrote were read" % (done_at, len(its), got, wrote)))
+            got_here = sum(int(r[2]) for r in o.env(i, "readv") if r[2].isdigit())
+            got += got_here
+            # a fault-free iteration after the scripted read results are used up, with unread bytes waiting: it must read
+            if done_at is not None and i > done_at and o.ops[i] == "iter" and not any(l == "# poll EINTR" for l in o.blocks[i]) \
+                    and pending_before > 0 and got_here == 0:
+                fails.append(("no-resume-read", "the injected read faults were used up at step %d; the fault-free iteration at step %d "
+                              "read nothing although %d bytes the peer wrote are waiting" % (done_at, i, pending_before)))
+                break
+            if done_at is None and seen >= n_script and i >= last_script:
+                done_at = i
     return fails
 
 
